@@ -410,10 +410,12 @@ def load_known(pid):
 # ------------------------------------------------------------------------------------------------
 # Harness runs
 # ------------------------------------------------------------------------------------------------
+# TSan: halt_on_error=0 on purpose - gcc 12's runtime can deadlock in Die() when the reporting thread holds an application
+# mutex that other threads wait for; the process then finishes and exits with exitcode=98, which is reported as a fault.
 SAN_ENV = {
     "ASAN_OPTIONS": "detect_leaks=0:abort_on_error=0:exitcode=99:allocator_may_return_null=1",
     "UBSAN_OPTIONS": "print_stacktrace=1:halt_on_error=1:exitcode=99",
-    "TSAN_OPTIONS": "exitcode=98:halt_on_error=1:second_deadlock_stack=1:suppressions=" + os.path.join(HARNESS, "common", "tsan.supp"),
+    "TSAN_OPTIONS": "exitcode=98:halt_on_error=0:second_deadlock_stack=1:suppressions=" + os.path.join(HARNESS, "common", "tsan.supp"),
 }
 
 
